@@ -73,12 +73,31 @@ pub fn run_enum(args: &Args, mut out: Out) {
             run_seq(&mut out, sid, &seq);
         }
     }
-    for _ in 0..sample {
+    for j in 0..sample {
         sid += 1;
         // favour adds early so that lists grow long before removals
-        let seq: Vec<_> = (0..sample_depth)
-            .map(|i| if i < sample_depth / 2 && rng.gen_bool(0.7) { ops[rng.gen_range(0..6)].clone() } else { ops.choose(&mut rng).unwrap().clone() })
-            .collect();
+        let seq: Vec<(String, String)> = if j % 3 == 2 {
+            // names that are easily confused: every pair of name bytes that differs only in bit 5 (the bit that
+            // separates upper from lower case letters -- and '^' from '~', '_' from DEL, '@' from '`', '\\' from '|',
+            // digits from control bytes), so that near-miss lookups are frequent
+            let alphabet: &[u8] = b"aA^~_\x7f@`|\\1\x11-\x0d!\x01zZ";
+            let base: Vec<u8> = (0..rng.gen_range(1..=3)).map(|_| *alphabet.choose(&mut rng).unwrap()).collect();
+            let variant = |rng: &mut StdRng| -> String {
+                let v: Vec<u8> = base.iter().map(|b| if rng.gen_bool(0.4) { b ^ 0x20 } else { *b }).collect();
+                String::from_utf8(v).unwrap()
+            };
+            (0..sample_depth)
+                .map(|i| {
+                    let name = variant(&mut rng);
+                    let op = if i < sample_depth / 2 && rng.gen_bool(0.7) { "add" } else { *["add", "get_only", "get_all", "remove_only", "remove_all"].choose(&mut rng).unwrap() };
+                    (op.to_string(), name)
+                })
+                .collect()
+        } else {
+            (0..sample_depth)
+                .map(|i| if i < sample_depth / 2 && rng.gen_bool(0.7) { ops[rng.gen_range(0..6)].clone() } else { ops.choose(&mut rng).unwrap().clone() })
+                .collect()
+        };
         if out.wants(sid) {
             run_seq(&mut out, sid, &seq);
         }
